@@ -10,6 +10,13 @@ sys.path.insert(0, os.path.dirname(os.path.abspath(__file__)))
 import kv  # noqa: E402
 
 
+def write_if_changed(path, text):
+    old = open(path).read() if os.path.exists(path) else None
+    if old != text:
+        with open(path, 'w') as f:
+            f.write(text)
+
+
 def main(out_path):
     import kapture
     import kapture.io.csv as kcsv
@@ -50,21 +57,26 @@ def main(out_path):
     w('Definition feature_dirs : list (string * string * bool) := ' + kv.clist(rows) + '.')
     w('Definition records_data_rel : string := ' + kv.cstr(rel(krec.get_record_fullpath(root))) + '.')
     w('')
+    text = '\n'.join(L) + '\n'
+    write_if_changed(out_path, text)
+    # per-property table files: harness/tables/<name>.py with emit() -> list of Coq lines  ==> coq/Gen/T<name>.v
     extra = os.path.join(os.path.dirname(os.path.abspath(__file__)), 'tables')
     if os.path.isdir(extra):
         for fn in sorted(os.listdir(extra)):
-            if fn.endswith('.py'):
-                ns = {}
-                exec(compile(open(os.path.join(extra, fn)).read(), fn, 'exec'), ns)
-                w(f'(* ---- harness/tables/{fn} *)')
-                for line in ns['emit']():
-                    w(line)
-                w('')
-    text = '\n'.join(L) + '\n'
-    old = open(out_path).read() if os.path.exists(out_path) else None
-    if old != text:
-        with open(out_path, 'w') as f:
-            f.write(text)
+            if fn.endswith('.py') and not fn.startswith('_'):
+                target = os.path.join(os.path.dirname(out_path), 'T' + fn[:-3] + '.v')
+                try:
+                    ns = {'__file__': os.path.join(extra, fn), '__name__': 'tables_' + fn[:-3]}
+                    exec(compile(open(os.path.join(extra, fn)).read(), fn, 'exec'), ns)
+                    lines = ['(* GENERATED on every check by harness/tables/%s from the repository under test. Do not edit. *)' % fn,
+                             'From Coq Require Import List String ZArith NArith QArith.', 'Import ListNotations.', '']
+                    lines += list(ns['emit']())
+                    write_if_changed(target, '\n'.join(lines) + '\n')
+                except Exception as e:  # fail closed for the properties that depend on this table only
+                    print(f'TABLE-TRANSLATOR-FAILED {fn}: {type(e).__name__}: {e}')
+                    for ext in ('.v', '.vo'):
+                        if os.path.exists(target[:-2] + ext):
+                            os.unlink(target[:-2] + ext)
 
 
 if __name__ == '__main__':
